@@ -519,7 +519,12 @@ func (x *Exec) evBuiltin(st *State, call *ast.CallExpr, name string) []Val {
 		}
 		return nil
 	case "recover":
-		panic(unsupported("recover()"))
+		// partial correctness: paths that panic are not followed (they end at the failing operation), so on
+		// every path that reaches a deferred recover() there is no panic in flight and it returns nil
+		x.vc.note("recover() returns nil: panicking paths are outside the partial-correctness semantics (see safety obligations)")
+		anyT := types.NewInterfaceType(nil, nil)
+		srt := x.vc.sortOf(anyT)
+		return []Val{{T: x.vc.nilTerm(srt), Sort: srt, GoT: anyT}}
 	case "min", "max":
 		a := x.ev(st, call.Args[0])
 		for _, e := range call.Args[1:] {
